@@ -27,17 +27,17 @@ type muxFrameExp struct {
 }
 
 type muxExpect struct {
-	Err    bool `json:"err"`
+	Err    bool   `json:"err"`
 	Reason string `json:"reason"`
-	Anim   bool `json:"anim"`
-	CW     int  `json:"cw"`
-	CH     int  `json:"ch"`
-	Loop   int  `json:"loop"`
-	Bg     int  `json:"bg"`
-	ICC    int  `json:"icc"`
-	EXIF   int  `json:"exif"`
-	XMP    int  `json:"xmp"`
-	Alpha  bool `json:"alpha"`
+	Anim   bool   `json:"anim"`
+	CW     int    `json:"cw"`
+	CH     int    `json:"ch"`
+	Loop   int    `json:"loop"`
+	Bg     int    `json:"bg"`
+	ICC    int    `json:"icc"`
+	EXIF   int    `json:"exif"`
+	XMP    int    `json:"xmp"`
+	Alpha  bool   `json:"alpha"`
 	Frames []struct {
 		Tok     int `json:"tok"`
 		X       int `json:"x"`
@@ -282,8 +282,20 @@ func checkC14(args []string) {
 		files = append(files, fc)
 		pending[id] = pend{c, out}
 	}
+	// files laid out by the TLA+ container writer (spec/RiffW.tla; reader o writer = identity is model-checked there):
+	// both real parsers must report exactly the description the writer was given.
+	wdesc := map[string]string{}
+	if run.Replay == "" {
+		for _, fc := range riffWriterFiles(run, wdesc) {
+			files = append(files, fc)
+		}
+	}
 	bad := vx.ValidateFiles(run, files)
 	for id, why := range bad {
+		if d, ok := wdesc[id]; ok {
+			run.Violate("writer-file|"+why, fmt.Sprintf("container written by spec/RiffW.tla from %s: %s", d, why), map[string]any{"description": d})
+			continue
+		}
 		p := pending[id]
 		run.Violate(muxSignature(p.c.Expect, why), fmt.Sprintf("history %s: %s (file %d bytes)", histString(p.c.Hist), why, len(p.out)), p.c)
 	}
@@ -335,4 +347,107 @@ func unrepresentableExpect(t *muxTokens, c muxCase, e vx.Expect) vx.Expect {
 	e.Src = "input(unrepresentable state accepted)"
 	e.NFrames = 0 // no frame list can be right: forces a report that names the class
 	return e
+}
+
+// riffWFrame / riffWDesc mirror the records of spec/RiffW.tla.
+type riffWFrame struct {
+	Lossless, Alpha  bool
+	Alph, Extra      []int
+	W, H, X, Y, Dur  int
+	Dispose, NoBlend int
+}
+type riffWDesc struct {
+	Anim           bool
+	CW, CH, Loop   int
+	Bg             []int
+	ICC, EXIF, XMP []int
+	Frames         []riffWFrame
+}
+
+// riffWriterFiles asks TLC for containers written by spec/RiffW.tla (exhaustively for one frame, by simulation for
+// several) and pairs each with the description it was written from and with what the two real parsers report.
+func riffWriterFiles(run *vx.Run, wdesc map[string]string) []vx.FileCase {
+	var out []vx.FileCase
+	seen := map[uint64]bool{}
+	add := func(res *vx.TLCResult) {
+		if res.InvViolated != "" {
+			vx.Fatal2("RiffW: invariant %s violated (the spec's reader and writer disagree: spec bug)", res.InvViolated)
+		}
+		run.AddTLC(res)
+		for _, raw := range res.Tagged("CASE") {
+			var c struct {
+				D     riffWDesc `json:"d"`
+				Bytes []int     `json:"bytes"`
+			}
+			if err := json.Unmarshal(raw, &c); err != nil {
+				vx.Fatal2("RiffW CASE: %v", err)
+			}
+			data := make([]byte, len(c.Bytes))
+			for i, v := range c.Bytes {
+				data[i] = byte(v)
+			}
+			h := hashBytes(data)
+			if seen[h] {
+				continue
+			}
+			seen[h] = true
+			id := fmt.Sprintf("w%d", len(out))
+			db, _ := json.Marshal(c.D)
+			wdesc[id] = string(db)
+			e := vx.NewExpect("writer-input")
+			d := c.D
+			e.W, e.H, e.Anim, e.NFrames = d.CW, d.CH, b2i(d.Anim), len(d.Frames)
+			if d.Anim {
+				e.Loop, e.Bg = d.Loop, d.Bg
+			}
+			e.ICC, e.EXIF, e.XMP = d.ICC, d.EXIF, d.XMP
+			anyAlpha := false
+			for _, f := range d.Frames {
+				fe := vx.NewFrameExp()
+				fe.W, fe.H = f.W, f.H
+				fa := f.Alpha
+				if !f.Lossless {
+					fa = len(f.Alph) > 0
+					fe.Alph = vx.MetaInts(nil, false)
+					if fa {
+						fe.Alph = f.Alph
+					}
+				} else {
+					fe.Alph = vx.Absent
+				}
+				anyAlpha = anyAlpha || fa
+				fe.FAlpha = b2i(fa)
+				if d.Anim {
+					fe.X, fe.Y, fe.Dur, fe.Dispose, fe.NoBlend = f.X, f.Y, f.Dur, f.Dispose, f.NoBlend
+				}
+				e.Frames = append(e.Frames, fe)
+			}
+			e.HAlpha = b2i(anyAlpha)
+			fc := vx.FileCase{ID: id, Must: "accept", Bytes: c.Bytes, X: []vx.Expect{e}}
+			run.Eval("writer:" + string(db))
+			if dv, err := demuxView(data); err != nil {
+				run.Violate("writer-file|demuxer rejects", fmt.Sprintf("mux.NewDemuxer rejects a valid container written by spec/RiffW.tla from %s: %v", db, err), map[string]any{"description": string(db), "bytes": c.Bytes})
+			} else {
+				fc.X = append(fc.X, dv)
+			}
+			if pv, err := parserView(data); err != nil {
+				run.Violate("writer-file|container parser rejects", fmt.Sprintf("container.NewParser rejects a valid container written by spec/RiffW.tla from %s: %v", db, err), map[string]any{"description": string(db), "bytes": c.Bytes})
+			} else {
+				fc.X = append(fc.X, pv)
+			}
+			out = append(out, fc)
+		}
+	}
+	add(vx.MustTLC(vx.TLCOpts{Module: "RiffW", Cfg: "GEN_RiffW.cfg", Workers: 1, Timeout: 20 * time.Minute, Heap: "8g"}))
+	add(vx.MustTLC(vx.TLCOpts{Module: "RiffW", Cfg: "SPECIFICATION Spec\nCONSTANT MAXFRAMES = 4\nINVARIANTS RoundTrip Emit\nCHECK_DEADLOCK FALSE\n", Workers: 1,
+		Simulate: fmt.Sprintf("num=%d", run.Pick(600, 6000)), Depth: 6, Seed: run.Seed, Timeout: 20 * time.Minute, Heap: "8g"}))
+	if run.Thorough() {
+		res := vx.MustTLC(vx.TLCOpts{Module: "RiffW", Cfg: "MC_RiffW.cfg", Workers: 8, Timeout: 30 * time.Minute, Heap: "12g"})
+		if res.InvViolated != "" {
+			vx.Fatal2("RiffW: invariant %s violated at MAXFRAMES=2 (spec bug)", res.InvViolated)
+		}
+		run.AddTLC(res)
+	}
+	run.Cov["files_from_the_tla_container_writer"] = len(out)
+	return out
 }
